@@ -190,6 +190,9 @@ func (c *jsonCursor) str() (string, bool) {
 }
 
 func jsonParseWireError(c *jsonCursor, e *connectWireError) (inSubset bool, err error) {
+	if c.lit("{}") {
+		return true, nil // an object without any field: every field keeps its zero value
+	}
 	if !c.lit(`{"code":`) {
 		return false, nil
 	}
